@@ -294,6 +294,25 @@ static void oracle_f_invert (const T *src, int ret, const pixman_f_transform_t *
     stat (worst <= 2.0L * u ? "f_invert:TRUE within 2 ulp of the exact inverse" : worst <= 1024.0L * u ? "f_invert:TRUE within 2^10 ulp" : "f_invert:TRUE further (inside the bound)");
 }
 
+/* ------------------------------------------------------------------ exact rational matrices (f_mul, f_scale, f_rotate, f_translate) */
+typedef struct { i128 n, d; } Q;                       /* d > 0, reduced */
+static Q qmk (i128 n, i128 d) { Q q; if (d < 0) { n = -n; d = -d; } i128 g = gcd128 (n, d); if (g > 1) { n /= g; d /= g; } if (n == 0) d = 1; q.n = n; q.d = d; return q; }
+static Q qmul (Q a, Q b) { Q x = qmk (a.n, b.d), y = qmk (b.n, a.d); return qmk (x.n * y.n, x.d * y.d); }
+static Q qadd (Q a, Q b) { if (a.n == 0) return b; if (b.n == 0) return a; i128 g = gcd128 (a.d, b.d); return qmk (a.n * (b.d / g) + b.n * (a.d / g), a.d / g * b.d); }
+static long double qld (Q a) { return (long double) a.n / (long double) a.d; }
+static void qfromT (const T *t, Q o[9]) { for (int i = 0; i < 9; i++) o[i] = qmk (t->matrix[i / 3][i % 3], 65536); }
+/* exact product, printed; the library's doubles lib[] (NULL: not judged) must be within 4u * sum |terms| of it:
+ * every entry is at most three products and two additions of doubles (for scale's reverse one of the factors is itself a rounded reciprocal) */
+static int qmulprint (FILE *fr, const Q l[9], const Q r[9], const pixman_f_transform_t *lib)
+{
+    int bad = 0;
+    for (int i = 0; i < 3; i++) for (int j = 0; j < 3; j++) { Q s = qmk (0, 1); long double mag = 0;
+        for (int k = 0; k < 3; k++) { Q t = qmul (l[i * 3 + k], r[k * 3 + j]); s = qadd (s, t); mag += ldabs (qld (t)); }
+        fputc (' ', fr); prq (fr, s.n, s.d);
+        if (lib && ldabs ((long double) lib->m[i][j] - qld (s)) > 4.0L * mag / 9007199254740992.0L * 1.001L) bad = 1; }
+    return bad;
+}
+
 /* ------------------------------------------------------------------ one request */
 static void exec_line (char *line, FILE *fr)
 {
@@ -400,12 +419,30 @@ static void exec_line (char *line, FILE *fr)
         getT (&t); if (g_bad) goto bad;
         int ret = op[3] == 's' ? pixman_transform_is_scale (&t) : op[4] == 'd' ? pixman_transform_is_identity (&t) : pixman_transform_is_int_translate (&t);
         fprintf (fr, "%d\n", ret); stat ("op:is_*");
+        { /* spec oracle in exact arithmetic: "within two units"; judged when no int32 difference wraps and no entry is INT32_MIN */
+            int64_t e[9]; int judged = 1; for (int i = 0; i < 9; i++) { e[i] = t.matrix[i / 3][i % 3]; if (e[i] == INT32_MIN) judged = 0; }
+            if (e[0] - e[4] > INT32_MAX || e[0] - e[4] <= INT32_MIN || e[0] - e[8] > INT32_MAX || e[0] - e[8] <= INT32_MIN) judged = 0;
+#define NZ(v) ((v) >= -2 && (v) <= 2)
+#define N1(v) ((v) >= 65534 && (v) <= 65538)
+#define NI(v) ((((v) % 65536) + 65536) % 65536 <= 2)
+            int exp;
+            if (op[3] == 's') exp = !NZ (e[0]) && NZ (e[1]) && NZ (e[2]) && NZ (e[3]) && !NZ (e[4]) && NZ (e[5]) && NZ (e[6]) && NZ (e[7]) && !NZ (e[8]);
+            else if (op[4] == 'd') exp = llabs (e[0] - e[4]) <= 2 && llabs (e[0] - e[8]) <= 2 && !NZ (e[0]) && NZ (e[1]) && NZ (e[2]) && NZ (e[3]) && NZ (e[5]) && NZ (e[6]) && NZ (e[7]);
+            else exp = N1 (e[0]) && NZ (e[1]) && NI (e[2]) && NZ (e[3]) && N1 (e[4]) && NI (e[5]) && NZ (e[6]) && NZ (e[7]) && N1 (e[8]);
+            if (!judged) stat ("is_*:an entry is INT32_MIN or a difference wraps (not judged)");
+            else { stat (exp ? "is_*:expected TRUE" : "is_*:expected FALSE"); if (exp != (ret != 0)) orc ("is-spec", "%s differs from the two-unit tolerance specification", op); } }
         /* sanity: exact matrices of the class are recognised */
         int exact_id = 1; for (int i = 0; i < 9; i++) if (t.matrix[i / 3][i % 3] != ((i % 4) ? 0 : 65536)) exact_id = 0;
         if (exact_id && !ret) orc ("is-exact", "%s rejects the exact identity", op);
     } else if (!strcmp (op, "is_inverse")) {
         getT (&l); getT (&r); if (g_bad) goto bad;
-        fprintf (fr, "%d\n", pixman_transform_is_inverse (&l, &r)); stat ("op:is_*");
+        int ret = pixman_transform_is_inverse (&l, &r); fprintf (fr, "%d\n", ret); stat ("op:is_*");
+        { /* spec: the per-term rounded product is representable and passes the identity test */
+            i128 a[9], b[9], e[9]; T128 (&l, a); T128 (&r, b); int ok = ref_mul (a, b, e), judged = 1, exp = 0;
+            if (ok) { for (int i = 0; i < 9; i++) if (e[i] == I32MIN) judged = 0;
+                if (iabs (e[0] - e[4]) > I32MAX || iabs (e[0] - e[8]) > I32MAX) judged = 0;
+                exp = iabs (e[0] - e[4]) <= 2 && iabs (e[0] - e[8]) <= 2 && iabs (e[0]) > 2 && iabs (e[1]) <= 2 && iabs (e[2]) <= 2 && iabs (e[3]) <= 2 && iabs (e[5]) <= 2 && iabs (e[6]) <= 2 && iabs (e[7]) <= 2; }
+            if (judged) { stat (exp ? "is_inverse:expected TRUE" : "is_inverse:expected FALSE"); if (exp != (ret != 0)) orc ("is-spec", "is_inverse differs from: product representable and within two units of a uniform diagonal"); } }
     } else if (!strcmp (op, "invert")) {
         T d; getT (&t); if (g_bad) goto bad; d = t;
         int ret = pixman_transform_invert (&d, &t);
@@ -417,7 +454,7 @@ static void exec_line (char *line, FILE *fr)
         int ret = pixman_transform_from_pixman_f_transform (&t, &ft);
         fprintf (fr, "%d %d\n", ret, ret ? t.matrix[1][2] : 0);
         long double x = (long double) d * 65536.0L;
-        if (ret) { if (ldabs ((long double) t.matrix[1][2] - x) > 0.5L) orc ("from-f-not-nearest", "from_pixman_f_transform: not the nearest 16.16 value");
+        if (ret) { if (ldabs ((long double) t.matrix[1][2] - x) > 0.5L) orc ("from-f-not-nearest", "from_pixman_f_transform: not the nearest 16.16 value [%s]", x == 0.5L - 0x1p-54L ? "the double just below 0.5/65536: v*65536+0.5 rounds to 1.0 in binary64" : "other");
                    if (t.matrix[0][0] != 65536 || t.matrix[2][2] != 65536 || t.matrix[0][1] != 0) orc ("from-f-not-nearest", "from_pixman_f_transform: identity entries changed"); }
         else if (ldabs ((long double) d) <= 32767.0L) orc ("from-f-spurious-false", "from_pixman_f_transform: FALSE for a value inside [-32767,32767]");
         if (ret && ldabs ((long double) d) > 32768.0L) orc ("from-f-true-on-overflow", "from_pixman_f_transform: TRUE for an unrepresentable value");
@@ -425,7 +462,8 @@ static void exec_line (char *line, FILE *fr)
     } else if (!strcmp (op, "f_to")) {        /* pixman_f_transform_from_pixman_transform: exact */
         getT (&t); if (g_bad) goto bad; pixman_f_transform_t ft; pixman_f_transform_from_pixman_transform (&ft, &t);
         int ok = 1; for (int i = 0; i < 9; i++) if (ft.m[i / 3][i % 3] * 65536.0 != (double) t.matrix[i / 3][i % 3]) ok = 0;
-        fprintf (fr, "%d\n", ok); if (!ok) orc ("to-f-inexact", "f_transform_from_pixman_transform is not exact"); stat ("op:f_to");
+        fprintf (fr, "%d |", ok); for (int i = 0; i < 9; i++) { fputc (' ', fr); prd (fr, ft.m[i / 3][i % 3]); } fprintf (fr, "\n");
+        if (!ok) orc ("to-f-inexact", "f_transform_from_pixman_transform is not exact"); stat ("op:f_to");
     } else if (!strcmp (op, "f_invert")) {    /* double inverse of a fixed matrix seen as doubles: A*inv ~ I */
         getT (&t); if (g_bad) goto bad; pixman_f_transform_t ft, fi; pixman_f_transform_from_pixman_transform (&ft, &t);
         int ret = pixman_f_transform_invert (&fi, &ft); fprintf (fr, "%d", ret); if (ret) for (int i = 0; i < 9; i++) { fprintf (fr, " "); prd (fr, fi.m[i / 3][i % 3]); }
@@ -455,6 +493,36 @@ static void exec_line (char *line, FILE *fr)
         if (ret && mag[2] == ldabs (s[2]) && s[2] != 0) for (int j = 0; j < 2; j++) { long double q = s[j] / s[2];
             if (ldabs ((long double) fv.v[j] - q) > 1e-15L * 16 * (mag[j] / ldabs (s[2]) + 1e-300L)) { orc ("f-point", "f_transform_point differs from the exact quotient beyond double rounding"); break; } }
         stat ("op:f_point");
+    } else if (!strcmp (op, "f_mul")) {
+        getT (&l); getT (&r); if (g_bad) goto bad; pixman_f_transform_t fl, fr2, fd; pixman_f_transform_from_pixman_transform (&fl, &l); pixman_f_transform_from_pixman_transform (&fr2, &r);
+        pixman_f_transform_multiply (&fd, &fl, &fr2); for (int i = 0; i < 9; i++) { if (i) fputc (' ', fr); prd (fr, fd.m[i / 3][i % 3]); } fprintf (fr, " |");
+        Q ql[9], qr[9]; qfromT (&l, ql); qfromT (&r, qr);
+        if (qmulprint (fr, ql, qr, &fd)) orc ("f-mul", "f_transform_multiply differs from the exact product beyond 4u * sum |terms|"); fprintf (fr, "\n"); stat ("op:f_mul");
+    } else if (!strcmp (op, "f_scale") || !strcmp (op, "f_rotate") || !strcmp (op, "f_translate")) {
+        T f0, r0; int hf = getOptT (&f0), hr = getOptT (&r0); int32_t a = geti (), b = geti (); if (g_bad) goto bad;
+        pixman_f_transform_t ff, rr; if (hf) pixman_f_transform_from_pixman_transform (&ff, &f0); if (hr) pixman_f_transform_from_pixman_transform (&rr, &r0);
+        double da = a / 65536.0, db = b / 65536.0; int ret; char k = op[2];
+        if (k == 's') ret = pixman_f_transform_scale (hf ? &ff : NULL, hr ? &rr : NULL, da, db);
+        else if (k == 'r') ret = pixman_f_transform_rotate (hf ? &ff : NULL, hr ? &rr : NULL, da, db);
+        else ret = pixman_f_transform_translate (hf ? &ff : NULL, hr ? &rr : NULL, da, db);
+        fprintf (fr, "%d", ret); if (hf) for (int i = 0; i < 9; i++) { fputc (' ', fr); prd (fr, ff.m[i / 3][i % 3]); } fprintf (fr, " ;"); if (hr) for (int i = 0; i < 9; i++) { fputc (' ', fr); prd (fr, rr.m[i / 3][i % 3]); }
+        /* exact verdict */
+        Q one = qmk (1, 1), zero = qmk (0, 1), qa = qmk (a, 65536), qb = qmk (b, 65536), tf[9], tr[9], qf[9], qr[9];
+        for (int i = 0; i < 9; i++) tf[i] = tr[i] = (i % 4) ? zero : one;
+        int eret = 1, bad = 0;
+        if (k == 's') { if (a == 0 || b == 0) eret = 0; else { tf[0] = qa; tf[4] = qb; tr[0] = qmk (65536, a); tr[4] = qmk (65536, b); } }
+        else if (k == 'r') { tf[0] = tf[4] = tr[0] = tr[4] = qa; tf[1] = qmk (-(i128) b, 65536); tf[3] = qb; tr[1] = qb; tr[3] = qmk (-(i128) b, 65536); }
+        else { tf[2] = qa; tf[5] = qb; tr[2] = qmk (-(i128) a, 65536); tr[5] = qmk (-(i128) b, 65536); }
+        if (hf) qfromT (&f0, qf); if (hr) qfromT (&r0, qr);
+        fprintf (fr, " | %d ", eret);
+        if (!hf) fprintf (fr, "-"); else { fprintf (fr, "+"); if (eret) bad |= qmulprint (fr, tf, qf, &ff); else for (int i = 0; i < 9; i++) { fputc (' ', fr); prq (fr, qf[i].n, qf[i].d); } }
+        fputc (' ', fr);
+        if (!hr) fprintf (fr, "-"); else { fprintf (fr, "+"); if (eret) bad |= qmulprint (fr, qr, tr, &rr); else for (int i = 0; i < 9; i++) { fputc (' ', fr); prq (fr, qr[i].n, qr[i].d); } }
+        fprintf (fr, "\n");
+        if (eret != (ret != 0)) orc ("f-pair", "%s: return value differs from the exact one (FALSE iff a scale factor is zero)", op);
+        else if (bad) orc ("f-pair", "%s: a matrix differs from the exact product beyond 4u * sum |terms|", op);
+        if (!eret && ret == 0) { /* nothing may have been stored */ pixman_f_transform_t c; if (hf) { pixman_f_transform_from_pixman_transform (&c, &f0); if (memcmp (&c, &ff, sizeof c)) orc ("f-pair", "%s: FALSE but forward was modified", op); } }
+        stat (k == 's' ? "op:f_scale" : k == 'r' ? "op:f_rotate" : "op:f_translate"); stat (ret ? "f_pair:TRUE" : "f_pair:FALSE");
     } else if (!strcmp (op, "f_bounds")) {
         pixman_box16_t b, b0; getT (&t); b.x1 = geti (); b.y1 = geti (); b.x2 = geti (); b.y2 = geti (); if (g_bad) goto bad; b0 = b;
         pixman_f_transform_t ft; pixman_f_transform_from_pixman_transform (&ft, &t);
